@@ -29,6 +29,8 @@ type checker struct {
 	s *core.Shard
 	// culprit attribute sets already established in this shard
 	cache [][]string
+	// attributed counts the failures that went through culprit attribution (capped)
+	attributed int
 }
 
 func optsFor(r *rand.Rand, m *gen.Model) ld.Opts {
@@ -238,6 +240,13 @@ func (k *checker) model(id string, m *gen.Model, opts ld.Opts) {
 		next := cur.Clone()
 		removed := 0
 		for _, f := range out.failures {
+			if k.attributed >= 8 {
+				// a tree on which everything fails: enough failures were attributed and minimised,
+				// the rest is reported as found
+				k.report(f, c, out, "", nil)
+				continue
+			}
+			k.attributed++
 			culprit, minimal, mf := k.attribute(cur, opts, f)
 			k.report(mf, c, out, strings.Join(culprit, ","), minimal)
 			if len(culprit) <= 2 {
